@@ -1,4 +1,5 @@
 import I2N.Lemmas.Cmd
+import I2N.Extracted.GenCmd
 /-! C11 — command line selections and overrides mean what the documentation says. -/
 namespace I2N.Props.C11
 open I2N.Cmd
@@ -538,5 +539,118 @@ example : (paramsFromCmd av0 (args0 ["only=tutorial1", "aaa=b", "only_vm1=Fedora
       (fun c => (selectedTests av0 c).toOption)
     = (paramsFromCmd av0 (args0 ["only=minimal", "only_vm1=Fedora", "only=tutorial1", "aaa=b"])).toOption.map
       (fun c => (selectedTests av0 c).toOption) := by decide
+
+/-! ## The model's one-step function is the Python source of the tokenizing loop (translator tie)
+
+`I2N/Extracted/GenCmd.lean` is regenerated on every `./check C11` from the CURRENT source of
+`avocado_i2n/cmd_parser.py` by `harness/pygen_pxcmd.py` (which cuts the body of the `for cmd_param in config["params"]`
+loop out of `params_from_cmd` and hands it to the translator `harness/pygen.py`): the branch structure — malformed
+argument, `only`/`no`, `only_*`/`no_*` split into nets / vm / unknown object, `vms`, `nets`, any other `K=V` —, the
+order of the tests, the two nets conflict checks of /repo 893de05 and where they stand relative to the evaluation of
+the restriction, and the raised errors are translated; the regular expressions stay the hand recognisers `splitArg`,
+`netsKey`, `vmKey`; every statement that updates the loop state is pinned verbatim to a named action of the state
+monad `StateT St (Except Err)` (table in the generated file).  The statements in front of the loop are pinned as well
+and stand for `St.init`. -/
+
+section MatchesSource
+open I2N.Extracted.GenCmd
+
+set_option linter.unusedSimpArgs false in
+/-- **The hand written `step` IS the body of the tokenizing loop of `params_from_cmd`**: for every configuration, every
+loop state and every argument the regenerated definition ends in the same state or raises the same error.  No
+hypotheses. -/
+theorem step_matches_source (av : Avail) (st : St) (arg : Str) :
+    (genStep av arg).run st = (step av st arg).map (fun s => ((), s)) := by
+  have tac : True := trivial
+  unfold genStep step
+  cases h : splitArg arg with
+  | none =>
+    simp [StateT.run, bind, StateT.bind, Except.bind, throw, throwThe, MonadExceptOf.throw, StateT.lift, Except.map]
+  | some kv =>
+    obtain ⟨key, value⟩ := kv
+    by_cases h1 : (key == kOnly || key == kNo) = true
+    · simp [StateT.run, bind, StateT.bind, Except.bind, Except.map, pure, StateT.pure, Except.pure, modSt,
+        scanPrimary, addTestsLine, h1]
+    by_cases h2 : (kOnlyU.isPrefixOf key || kNoU.isPrefixOf key) = true
+    · by_cases h3 : netsKey key = true
+      · by_cases h4 : value = []
+        · simp [StateT.run, bind, StateT.bind, Except.bind, throw, throwThe, MonadExceptOf.throw, StateT.lift,
+            Except.map, pure, StateT.pure, Except.pure, readSt, modSt, setNetsStr, setNetsByRestr, pyStartsWith,
+            h1, h2, h3, h4]
+          cases netsBy av none <;> rfl
+        · by_cases h5 : st.explicitNets = true
+          · simp [StateT.run, bind, StateT.bind, Except.bind, throw, throwThe, MonadExceptOf.throw, StateT.lift,
+              Except.map, pure, StateT.pure, Except.pure, readSt, modSt, setNetsStr, setNetsByRestr, pyStartsWith,
+              h1, h2, h3, h4, h5]
+          · simp [StateT.run, bind, StateT.bind, Except.bind, throw, throwThe, MonadExceptOf.throw, StateT.lift,
+              Except.map, pure, StateT.pure, Except.pure, readSt, modSt, setNetsStr, setNetsByRestr, pyStartsWith,
+              h1, h2, h3, h4, h5]
+            cases netsBy av (some (removeAll kUNets key, value)) <;> rfl
+      · cases h6 : av.vms.find? (vmKey key) <;>
+          simp [StateT.run, bind, StateT.bind, Except.bind, throw, throwThe, MonadExceptOf.throw, StateT.lift,
+            Except.map, pure, StateT.pure, Except.pure, modSt, addVmLine, pyStartsWith, h1, h2, h3, h6]
+    by_cases h7 : (key == kVms) = true
+    · by_cases h10 : (splitComma value).all (av.vms.contains ·) = true
+      · simp [StateT.run, bind, StateT.bind, Except.bind, Except.map, pure, StateT.pure, Except.pure, modSt,
+          setSelVms, checkSelVms, pyStartsWith, h1, h2, h7, h10]
+        simp at h10; rw [if_pos h10, if_pos h10]
+      · simp [StateT.run, bind, StateT.bind, Except.bind, Except.map, pure, StateT.pure, Except.pure, modSt,
+          setSelVms, checkSelVms, pyStartsWith, h1, h2, h7, h10]
+        simp at h10; rw [if_neg (by simpa using h10), if_neg (by simpa using h10)]
+    by_cases h8 : (key == kNets) = true
+    · cases h9 : st.netsStr <;>
+        simp [StateT.run, bind, StateT.bind, Except.bind, throw, throwThe, MonadExceptOf.throw, StateT.lift,
+          Except.map, pure, StateT.pure, Except.pure, readSt, modSt, setParam, setExplicitNets, pyStartsWith,
+          h1, h2, h7, h8, h9]
+    · simp [StateT.run, bind, StateT.bind, Except.bind, Except.map, pure, StateT.pure, Except.pure, modSt,
+        setParam, pyStartsWith, h1, h2, h7, h8]
+
+/-- the whole loop: running the regenerated body over the argument list (Python's `for`) is the model's `loop` — for
+every configuration, every start state and every argument list of any length -/
+theorem loop_matches_source (av : Avail) (st : St) (args : List Str) :
+    (args.forM (genStep av)).run st = (loop av st args).map (fun s => ((), s)) := by
+  induction args generalizing st with
+  | nil => rfl
+  | cons a as ih =>
+    have h := step_matches_source av st a
+    show StateT.run (do genStep av a; as.forM (genStep av)) st = _
+    simp only [loop]
+    cases hs : step av st a with
+    | error e =>
+      rw [hs] at h
+      simp only [StateT.run, Except.map] at h
+      simp only [StateT.run, bind, StateT.bind, Except.bind, Except.map, h]
+    | ok st' =>
+      rw [hs] at h
+      simp only [StateT.run, Except.map] at h
+      simp only [StateT.run, bind, StateT.bind, Except.bind, h]
+      exact ih st'
+
+/-- `params_from_cmd` = the regenerated loop from the pinned initial state, then `finish` -/
+theorem paramsFromCmd_matches_source (av : Avail) (args : List Str) :
+    paramsFromCmd av args =
+      match (args.forM (genStep av)).run (St.init av) with
+      | .error e => .error e
+      | .ok (_, st) => finish av st := by
+  rw [loop_matches_source]
+  unfold paramsFromCmd
+  cases loop av (St.init av) args <;> rfl
+
+/-- the generated definition computes (it is not stuck on anything): a malformed argument; an unknown object; an unknown
+vm; the two nets conflicts in both orders; a primary restriction lifts the default; a plain override -/
+example : (genStep av0 "ccc".toList).run (St.init av0) = .error .valueError := by decide
+example : (genStep av0 "only_vm10=x".toList).run (St.init av0) = .error .valueError := by decide
+example : (genStep av0 "vms=vm1,vm3".toList).run (St.init av0) = .error .valueError := by decide
+example : ((genStep av0 "nets=net1".toList).run (St.init av0) >>= fun r => (genStep av0 "only_nets=net2".toList).run r.2)
+    = .error .valueError := by decide
+example : ((genStep av0 "only_nets=net2".toList).run (St.init av0) >>= fun r => (genStep av0 "nets=net1".toList).run r.2)
+    = .error .valueError := by decide
+example : ((genStep av0 "only=normal..tutorial1".toList).run (St.init av0)).toOption.map (·.2.useDef) = some false := by
+  decide
+example : ((genStep av0 "a=b,c".toList).run (St.init av0)).toOption.map (·.2.pd) =
+    some [("a".toList, "b c".toList)] := by decide
+
+end MatchesSource
+
 
 end I2N.Props.C11
